@@ -143,9 +143,48 @@ func runC09(c *ev.Ctx) {
 			ed := d.Epochs[ei]
 			want := blocksOf(t.Blocks, ed.Plan.Epoch)
 			newEpochBlocks += len(want)
-			for variant := 0; variant < 4; variant++ {
+			for variant := 0; variant < 5; variant++ {
 				var tw *cons.Inst
-				if variant == 3 {
+				if variant == 4 {
+					// an instance that was first told a wrong validator set for this very epoch (same members, other weights),
+					// saw part of the epoch's events under it (rejecting one ends that phase), and is then Reset to the epoch
+					// with the right set: nothing computed under the wrong weights may survive, whatever the cache sizes
+					ws := append([]uint64(nil), ed.Plan.Weights...)
+					ws = append(ws[1:], ws[0])
+					same := true
+					for k := range ws {
+						same = same && ws[k] == ed.Plan.Weights[k]
+					}
+					if same {
+						// all weights equal: make the first member dominant without enlarging the total
+						for k := 1; k < len(ws); k++ {
+							ws[k] = ws[k]/4 + 1
+						}
+						if ws[0] <= 2 {
+							ws[0] = uint64(3 * len(ws))
+						}
+					}
+					tw = cons.NewInst(ed.Plan.Epoch, cons.BuildValidators(ed.Plan.IDs, ws), nil, cons.InstCfg{Index: cons.IdxDefault})
+					rejected := 0
+					for _, e := range ed.Events {
+						if err := tw.Process(e); err != nil {
+							rejected++
+							break
+						}
+					}
+					if tw.Crit != nil {
+						c.Count("wrong_set_phase_ended_in_crit_twin_skipped", 1)
+						continue
+					}
+					tw.Blocks = nil
+					tw.Seal = policy
+					if err := tw.Reset(ed.Plan.Epoch, ed.Plan.Validators()); err != nil {
+						viol("reset-failed", map[string]interface{}{"err": err.Error(), "twin": "wrong set first"})
+						return
+					}
+					c.Count("resets_after_a_wrong_validator_set_for_the_same_epoch", 1)
+					c.Count("wrong_set_phases_that_rejected_an_event", int64(rejected))
+				} else if variant == 3 {
 					// an instance that is already inside this very epoch (some of its events processed, election live) is
 					// Reset to the same epoch number and set: it must forget everything and behave like a fresh one
 					tw = cons.NewInst(ed.Plan.Epoch, ed.Plan.Validators(), nil, cons.InstCfg{Index: cons.IndexCfg((i + 3) % 3)})
